@@ -50,9 +50,13 @@ SingleFloats == {FltD(s, m, e) : s \in {0, 1}, m \in {1, 3, 16777215, 16777217, 
 WideFloats == {FltD(s, m, e) : s \in {0, 1}, m \in {1, 3, 1025, 1073741823}, e \in {0 - 40, 0 - 1, 0, 10, 60}} \cup {FltD(0, 0, 0)}
 FloatsFor(fmt) == CASE fmt = "half" -> HalfFloats [] fmt = "single" -> SingleFloats [] OTHER -> WideFloats
 
+\* single-quoted strings of every length 0..9: '', 'A', 'Ab', ... 'Abcdefghi' (multi character constant up to the element
+\* width, character string beyond it; DataDef.tla Readings for 5..8 characters in 64-bit elements and for '')
+SqChars == <<65, 98, 99, 100, 101, 102, 103, 104, 105>>
+SqStrings == {StrD(SubSeq(SqChars, 1, n), TRUE) : n \in 0..9}
 Strings == {StrD(<<97>>, FALSE), StrD(<<97>>, TRUE), StrD(<<97, 98>>, FALSE), StrD(<<97, 98>>, TRUE), StrD(<<65, 98, 99>>, FALSE),
             StrD(<<97, 98, 99, 100>>, TRUE), StrD(<<97, 98, 99, 100, 101>>, FALSE), StrD(<<122, 48>>, FALSE), StrD(<<200>>, FALSE),
-            StrD(<<200, 97>>, TRUE)}
+            StrD(<<200, 97>>, TRUE)} \cup SqStrings
 
 Small == {IntD(FALSE, <<1>>, 10), IntD(FALSE, <<2>>, 10), IntD(TRUE, <<1>>, 10), IntD(FALSE, <<1, 0, 0>>, 16)}
 (* ---- packed statements: reservations and constants at every sub-unit position, in front of / inside / behind DUP ----- *)
@@ -68,13 +72,14 @@ PackedLists(sname) ==
      \cup {<<a>> : a \in (IF st.ebits = 4 THEN {IntD(TRUE, <<8>>, 10), IntD(TRUE, <<9>>, 10), IntD(FALSE, <<1, 5>>, 10), IntD(FALSE, <<1, 6>>, 10),
                                                  IntD(TRUE, <<1>>, 10), FltD(0, 3, 0 - 1)}
                            ELSE {IntD(TRUE, <<8, 0>>, 16), IntD(TRUE, <<8, 1>>, 16), IntD(FALSE, <<15, 15>>, 16), IntD(FALSE, <<1, 0, 0>>, 16),
-                                 StrD(<<97, 98, 99>>, FALSE), StrD(<<97>>, TRUE), FltD(0, 3, 0 - 1)})}
+                                 StrD(<<97, 98, 99>>, FALSE), StrD(<<97>>, TRUE), FltD(0, 3, 0 - 1)} \cup SqStrings)}
      \cup {Times(ResD, n) : n \in 1..9} \cup {Times(c2, n) : n \in 1..9}
 AvrDataLists ==
   LET items == {IntD(FALSE, <<1>>, 10), IntD(FALSE, <<1, 2, 3, 4>>, 16), IntD(TRUE, <<1>>, 10), IntD(FALSE, <<15, 15>>, 16),
                 StrD(<<97, 98, 99>>, FALSE), StrD(<<97, 98>>, FALSE), StrD(<<99>>, FALSE), StrD(<<97, 98, 99, 100, 101>>, FALSE)}
   IN {<<a>> : a \in items \cup {IntD(FALSE, <<1, 0, 0, 0, 0>>, 16), IntD(TRUE, <<8, 0, 0, 1>>, 16), IntD(FALSE, <<15, 15, 15, 15>>, 16),
-                                 IntD(TRUE, <<8, 0, 0, 0>>, 16), IntD(TRUE, <<8, 1>>, 16), IntD(FALSE, <<1, 0, 0>>, 16), FltD(0, 3, 0 - 1)}}
+                                 IntD(TRUE, <<8, 0, 0, 0>>, 16), IntD(TRUE, <<8, 1>>, 16), IntD(FALSE, <<1, 0, 0>>, 16), FltD(0, 3, 0 - 1)}
+                                \cup SqStrings}
      \cup {<<a, b>> : a \in items, b \in items} \cup {<<a, b, c>> : a \in {StrD(<<99>>, FALSE), StrD(<<97, 98, 99>>, FALSE), IntD(FALSE, <<1>>, 10)},
                                                               b \in items, c \in {IntD(FALSE, <<1, 2, 3, 4>>, 16), StrD(<<99>>, FALSE)}}
 
@@ -166,7 +171,7 @@ Spec == Init /\ [][Next]_vars
 
 St == StmtTable[sname]
 Vals == [i \in 1..Len(args) |-> ArgVal(args[i])]
-L == IF md.cs2 = <<>> THEN Layout(sname, Vals, md) ELSE LayoutTwice(sname, Vals, md, md.cs2)
+L == IF md.cs2 = <<>> THEN LayoutAlts(sname, Vals, md) ELSE LayoutTwice(sname, Vals, md, md.cs2)
 Big == IF St.order = "mode" THEN md.big ELSE St.order = "big"
 Plain == St.fam \notin {"packed", "avrdata"}
 
@@ -275,6 +280,23 @@ EveryCopyTranslatedOnce ==
 TwiceIsBothTables ==
   (args # None /\ md.cs2 # <<>> /\ L.k = "data") =>
      L.b = Layout(sname, Vals, md).b \o Layout(sname, Vals, [md EXCEPT !.cs = md.cs \o md.cs2]).b
+
+\* single-quoted strings of every length, said directly: up to min(4, w) characters one element holding the characters,
+\* first one most significant; more than w characters one element per character; 5..8 characters in a 64-bit element
+\* either of the two; '' an error or nothing at all
+MultiCharReadings ==
+  (args # None /\ Plain /\ md.cs2 = <<>> /\ Len(args) = 1 /\ args[1].k = "str" /\ args[1].sq /\ "rep" \notin DOMAIN args[1]
+     /\ St.ty \in {"int", "both"} /\ St.fam # "ti" /\ ~(St.pads /\ md.padding /\ md.pcodd)) =>
+     LET cs == args[1].cs
+         n == Len(cs)
+         codes == [i \in 1..n |-> Table(md.cs)[cs[i]]]
+         one == [i \in 1..St.w |-> IF i <= St.w - n THEN 0 ELSE codes[i - (St.w - n)]]      \* big endian element
+         ord(be) == IF Big THEN be ELSE Reverse(be)
+     IN CASE n = 0 -> L.k = "alt" /\ L.alts[1].k = "error" /\ L.alts[2].k = "data" /\ L.alts[2].b = <<>>
+          [] n >= 1 /\ n <= St.w /\ n <= 4 -> L.k = "data" /\ L.b = ord(one)
+          [] n >= 5 /\ n <= St.w -> L.k = "alt" /\ L.alts[1].k = "data" /\ L.alts[1].b = ord(one)
+                                    /\ L.alts[2].k = "data" /\ L.alts[2].b = CharElems(cs, St.w, Big)
+          [] OTHER -> L.k = "data" /\ L.b = CharElems(cs, St.w, Big)
 
 FloatLayoutIsTheEncoder ==
   (args # None /\ Len(args) = 1 /\ args[1].k = "flt" /\ L.k = "data" /\ St.fmt = "half") =>
